@@ -36,6 +36,12 @@ BAD_PAINT = [
     'text:<svg xmlns="http://www.w3.org/2000/svg" viewBox="0 0 100 100"><rect x="10" y="10" width="50" height="50" fill="#12"/></svg>',
     'text:<svg xmlns="http://www.w3.org/2000/svg" viewBox="0 0 100 100"><defs><linearGradient id="g" spreadMethod="bogus" x1="0" y1="0" x2="100" y2="0" gradientUnits="userSpaceOnUse"><stop offset="0" stop-color="red"/><stop offset="1" stop-color="blue"/></linearGradient></defs><rect x="10" y="10" width="50" height="50" fill="url(#g)"/></svg>',
     'text:<svg xmlns="http://www.w3.org/2000/svg" viewBox="0 0 100 100"><rect x="10" y="10" width="50" height="50" fill="rgb(1,2)"/></svg>',
+    'text:<svg xmlns="http://www.w3.org/2000/svg" viewBox="0 0 100 100"><rect x="10" y="10" width="50" height="50" fill="#FF00FF0000"/></svg>',
+    'text:<svg xmlns="http://www.w3.org/2000/svg" viewBox="0 0 100 100"><rect x="10" y="10" width="50" height="50" fill="#12345"/></svg>',
+    'text:<svg xmlns="http://www.w3.org/2000/svg" viewBox="0 0 100 100"><rect x="10" y="10" width="50" height="50" fill="#1234567"/></svg>',
+    'text:<svg xmlns="http://www.w3.org/2000/svg" viewBox="0 0 100 100"><rect x="10" y="10" width="50" height="50" fill="#GGHHII"/></svg>',
+    'text:<svg xmlns="http://www.w3.org/2000/svg" viewBox="0 0 100 100"><rect x="10" y="10" width="50" height="50" fill="rgb(1,2,3,4)"/></svg>',
+    'text:<svg xmlns="http://www.w3.org/2000/svg" viewBox="0 0 100 100"><defs><linearGradient id="g" x1="0" y1="0" x2="100" y2="0" gradientUnits="userSpaceOnUse"><stop offset="0" stop-color="#FF00FF00FF00"/><stop offset="1" stop-color="blue"/></linearGradient></defs><rect x="10" y="10" width="50" height="50" fill="url(#g)"/></svg>',
 ]
 PALETTE_A = 'text:<svg xmlns="http://www.w3.org/2000/svg" viewBox="0 0 100 100"><path fill="var(--color1, #FF0000)" d="M10,10 L90,10 L90,90 L10,90 Z"/></svg>'
 PALETTE_B = 'text:<svg xmlns="http://www.w3.org/2000/svg" viewBox="0 0 100 100"><path fill="var(--color1, #00FF00)" d="M20,20 L80,20 L80,80 L20,80 Z"/></svg>'
@@ -43,7 +49,7 @@ PALETTE_AB = 'text:<svg xmlns="http://www.w3.org/2000/svg" viewBox="0 0 100 100"
 
 PAINT_FORMATS = gen.PICO
 BRIEF_KEYS = ("defect", "fmt", "warm", "invocation")
-DEFECTS = ["D1", "D1", "D1", "D1g", "D1n", "D1n", "D1v", "D2", "D2", "D3", "D3", "D4", "D4", "D5", "D6"]
+DEFECTS = ["D1", "D1", "D1", "D1g", "D1n", "D1n", "D1v", "D2", "D2", "D3", "D3", "D3", "D4", "D4", "D5", "D6", "D7"]
 
 
 def gen_case(seed, idx):
@@ -55,6 +61,8 @@ def gen_case(seed, idx):
         fmt = r.choice(gen.COLR)
     elif defect in ("D5", "D1v"):
         fmt = r.choice(["glyf_colr_1", "glyf_colr_0", "glyf"])
+    elif defect == "D7":
+        fmt = r.choice(["picosvg", "picosvgz"])
     elif defect == "D6":
         fmt = "cbdt"
     else:
@@ -143,6 +151,14 @@ def gen_case(seed, idx):
             masters={"thin": {"style_name": "Thin", "srcs": ["thin/*.svg"], "position": {"wght": 300}},
                      "bold": {"style_name": "Bold", "srcs": ["bold/*.svg"], "position": {"wght": 700}}},
             axes={"wght": ("Weight", 300)})
+    elif defect == "D7":
+        # a radial gradient under a NON-uniform user transform cannot be expressed in an OT-SVG glyph document
+        opts["transform"] = r.choice(["scale(1 0.5)", "matrix(1 0 0.3 0.8 0 0)", "scale(2 1)"])
+        new = gen.source_set(gen.rng(seed, "c17", idx, "bad"), 1)[0]
+        if new[2] in cps_of.values() or new[0] in srcs:
+            return None
+        srcs = {p_: c_ for p_, c_ in srcs.items() if isinstance(c_, str) and "gradient" not in c_ and "clock" not in c_ and "263a" not in c_}
+        bad[new[0]] = r.choice(["corpus:radial_gradient_rect.svg", "corpus:radial_gradient_square.svg"])
     elif defect == "D6":
         opts["bitmap_resolution"] = r.choice([256, 257, 300])
         opts["use_pngquant"] = False
